@@ -189,6 +189,14 @@ def verify_target(repo_root: str, relpath: str, qualname: str, contract: dict, r
             rep['status'] = 'spec-drift'
             rep['detail'] = f'loop count changed: contract expects {contract.get("n_loops")}, source has {n_loops}'
             return rep
+        if contract.get('is_generator') and contract.get('ensures') and not contract.get('assumed'):
+            # what callers assume about the whole yield sequence (`ensures` over `result`) must be proved here as an exit condition over the
+            # ghost list `yields` (same text): a mechanical link, not a second statement
+            import re as _re
+            exits = set(contract.get('at_exit', []))
+            for e in contract['ensures']:
+                if _re.sub(r'\bresult\b', 'yields', e) not in exits:
+                    raise SpecError(f'{qualname}: generator ensures not backed by an at_exit condition over `yields`: {e[:80]}')
         variants = contract.get('variants') or [None]
         obs = []
         eng = None
